@@ -311,6 +311,9 @@ def static_collapse_effects(repo):
         and src.index("value = inst.fixup.substitute(value, '')") < src.index('new_ent[key] = inst.fixup_key(')
     out.append(_shape('naming.variables_are_substituted_before_names_are_fixed_up', good_order,
                       'inst.fixup.substitute(inst.fixup_name(' in src, fn.lineno))
+    sub_i, org_i = src.find("value = inst.fixup.substitute(value, '')"), src.find("if folded == 'origin'")
+    out.append(_shape('naming.variables_are_substituted_before_any_keyvalue_is_transformed', 0 <= sub_i < org_i,
+                      0 <= org_i < sub_i, fn.lineno))
     fk = ast.unparse(mod.find('Instance.fixup_key'))
     out.append(_shape('geometry.position_keyvalues_are_rotated_then_offset',
                       'return str(Vec.from_str(value) @ self.orient + self.pos)' in fk
@@ -363,6 +366,8 @@ def _template(rng, vmf_mod):
         ent = t.create_ent(cls, origin=Vec(rng.randint(-64, 64), rng.randint(-64, 64), rng.randint(-64, 64)),
                            angles=f'{rng.choice([0, 15, 45, 90, -30])} {rng.choice([0, 90, 180, 270, 33])} {rng.choice([0, 0, 10, 90])}',
                            targetname=rng.choice(names))
+        if rng.random() < 0.3:
+            ent['origin'] = '$pos_var'            # positions given by a $variable are substituted, then transformed
         if rng.random() < 0.5:
             ent['parentname'] = rng.choice(names)
         if rng.random() < 0.5:
@@ -465,7 +470,7 @@ def _job_collapse(seed):
             return ('bad', f'{len(vb)} visible template brushes, {len(placed.brushes)} collapsed')
         if semantic:
             for old, new, base in zip(visible, placed.entities, ident.entities):
-                want = Vec.from_str(old['origin']) @ orient + pos
+                want = Vec.from_str(_subst(old['origin'])) @ orient + pos
                 got = Vec.from_str(new['origin'])
                 if (want - got).mag() > 1e-4 * max(1.0, want.mag()):
                     return ('bad', f'entity origin {old["origin"]} placed at {new["origin"]}, expected {want}')
@@ -494,13 +499,60 @@ def _job_collapse(seed):
     return ('ok', 1)
 
 
-FIXUPS = {'name_var': 'fromvar', 'param': '7', 'at_var': '@global_x', 'blank_var': ''}
+FIXUPS = {'name_var': 'fromvar', 'param': '7', 'at_var': '@global_x', 'blank_var': '', 'pos_var': '16 -32 48'}
 
 
 def _subst(text):
     for var in sorted(FIXUPS, key=len, reverse=True):
         text = text.replace('$' + var, FIXUPS[var])
     return text
+
+
+def _job_same_map(seed):
+    """The same template collapsed several times into one map: an overlay's side list must name faces of the brushes
+    added by *its* collapse (repeated collapses differ only by placement)."""
+    import logging
+    logging.disable(logging.CRITICAL)
+    from srctools import instancing, vmf as vmf_mod
+    from srctools.math import Vec
+    from srctools.vmf import FixupValue
+    rng = random.Random(seed)
+    try:
+        tmpl = vmf_mod.VMF()
+        prism = tmpl.make_prism(Vec(-32, -32, 0), Vec(32, 32, 16), mat='dev/dev_measuregeneric01')
+        tmpl.add_brush(prism.solid)
+        want_faces = [prism.top.id, prism.north.id]
+        tmpl.create_ent('info_overlay', origin='0 0 16', angles='0 0 0', sides=' '.join(map(str, want_faces)),
+                        material='decals/x')
+        file = instancing.InstanceFile(tmpl)
+        before = _export(tmpl)
+        target = vmf_mod.VMF()
+        if rng.random() < 0.5:      # face ids already taken in the target
+            target.add_brush(target.make_prism(Vec(512, 512, 0), Vec(576, 576, 16)).solid)
+        for k in range(rng.choice([2, 3, 4])):
+            pos, orient = _placement(rng)
+            inst = instancing.Instance(f'i{k}', 'inst.vmf', pos, orient, instancing.FixupStyle.PREFIX)
+            n_before = len(target.entities)
+            instancing.collapse_one(target, inst, file, engine_cache=_CACHE)
+            new_overlays = [e for e in list(target.entities)[n_before:] if e['classname'] == 'info_overlay']
+            if len(new_overlays) != 1:
+                return ('bad', f'collapse #{k + 1} added {len(new_overlays)} overlays')
+            own_faces = {inst.face_ids[f] for f in want_faces}
+            got = {int(x) for x in new_overlays[0]['sides'].split()}
+            if got != own_faces:
+                return ('bad', f'collapse #{k + 1}: the overlay lists faces {sorted(got)}, the faces of its own brush copy are '
+                               f'{sorted(own_faces)}')
+            live = {f.id for b in target.brushes for f in b.sides}
+            if not got <= live:
+                return ('bad', f'collapse #{k + 1}: the overlay lists faces {sorted(got - live)} that do not exist in the map')
+            mine = {f.id for b in target.brushes if b.id == inst.brush_ids[prism.solid.id] for f in b.sides}
+            if not got <= mine:
+                return ('bad', f'collapse #{k + 1}: the overlay lists faces {sorted(got)} that belong to another copy')
+        if _export(tmpl) != before:
+            return ('bad', 'the instance template changed')
+    except Exception as e:
+        return ('bad', f'{type(e).__name__}: {str(e)[:160]}')
+    return ('ok', 1)
 
 
 def _fixup_name(style, iname, name):
@@ -592,6 +644,15 @@ def b_collapse(ctx):
                 continue
             seen.add(_sig(what))
             ctx.violation(f'collapse.seed={job}', what, [job])
+    for job, res in ctx.pmap(_job_same_map, [ctx.seed * 7177 + i for i in range(2000 if ctx.thorough else 120)], batch=256,
+                             job_timeout=10.0):
+        ctx.case(('same_map', job))
+        if isinstance(res, str) or res[0] != 'ok':
+            what = res if isinstance(res, str) else res[1]
+            if _sig(what) in seen:
+                continue
+            seen.add(_sig(what))
+            ctx.violation(f'same_map.seed={job}', what, ['same_map', job])
     g = 5000 if ctx.thorough else 300
     for job, res in ctx.pmap(_job_graph, [ctx.seed * 2147483 + i for i in range(g)], batch=256, job_timeout=6.0):
         ctx.case(('graph', job))
@@ -604,7 +665,7 @@ def b_collapse(ctx):
 
 
 def _replay(inp):
-    res = _job_graph(inp[1]) if inp[0] == 'graph' else _job_collapse(inp[0])
+    res = _job_graph(inp[1]) if inp[0] == 'graph' else _job_same_map(inp[1]) if inp[0] == 'same_map' else _job_collapse(inp[0])
     return {'failed': isinstance(res, str) or res[0] != 'ok', 'observation': res}
 
 
